@@ -527,6 +527,10 @@ class AsyncFIXConnection:
 
         msg_seq_num = int(logon_msg[FTag.MsgSeqNum])
 
+        if self._connection_role == ConnectionRole.INITIATOR:
+            # Logon() is only expected as a response to our own Logon()
+            assert self._connection_state == ConnectionState.LOGON_INITIAL_SENT
+
         if self._connection_role == ConnectionRole.ACCEPTOR:
             assert self._connection_state == ConnectionState.LOGON_INITIAL_RECV
             if msg_seq_num >= self._session.next_num_in:
@@ -815,6 +819,14 @@ class AsyncFIXConnection:
                     return
                 await self._state_set(ConnectionState.LOGON_INITIAL_RECV)
                 self._connection_role = ConnectionRole.ACCEPTOR
+            elif (
+                self._connection_state == ConnectionState.LOGON_INITIAL_SENT
+                and msg.msg_type != FMsg.LOGON
+                and msg.msg_type != FMsg.LOGOUT
+            ):
+                # Initiator still waits for Logon() response: nothing else is acceptable
+                await self.disconnect(ConnectionState.DISCONNECTED_BROKEN_CONN)
+                return
 
             if msg.msg_type == FMsg.LOGON:
                 await self._process_logon(msg)
